@@ -246,8 +246,12 @@ def aggregate_local_results(scenario, gcID):
 
     # data about power in time windows
     if scenario.strategy_name == "peak_load_window":  # ToDo: Change to scenario.strat.uses_window
-        significance_threshold = ((max(scenario.totalLoad[gcID]) - scenario.strat.peak_power[gcID])
-                                  / max(scenario.totalLoad[gcID])) * 100
+        max_total_load = max(scenario.totalLoad[gcID])
+        significance_threshold = 0
+        if max_total_load != 0:
+            # avoid division by zero if no power is drawn at all
+            significance_threshold = ((max_total_load - scenario.strat.peak_power[gcID])
+                                      / max_total_load) * 100
         json_results["peak load time windows"] = {
             "peak power in time windows": scenario.strat.peak_power[gcID],
             "unit": "kW",
